@@ -331,3 +331,29 @@ def walk_no_nested(node: ast.AST):
         first = False
         yield n
         todo.extend(ast.iter_child_nodes(n))
+
+
+def inline_local_consts(fnode: ast.AST) -> ast.AST:
+    """a copy of the function in which every local bound exactly once to a str constant (never re-bound, not a parameter)
+    is replaced by that constant at its uses: `sfx = "_x"; f(c + sfx)` reads as `f(c + "_x")` (behaviour-preserving
+    hoisting of a literal must not change what a rule sees)"""
+    import copy
+    fn = copy.deepcopy(fnode)
+    counts: Dict[str, int] = {}
+    consts: Dict[str, ast.Constant] = {}
+    a = fn.args
+    params = {x.arg for x in a.posonlyargs + a.args + a.kwonlyargs}
+    for n in ast.walk(fn):
+        if isinstance(n, ast.Name) and isinstance(n.ctx, (ast.Store, ast.Del)):
+            counts[n.id] = counts.get(n.id, 0) + 1
+        if isinstance(n, ast.Assign) and len(n.targets) == 1 and isinstance(n.targets[0], ast.Name) \
+                and isinstance(n.value, ast.Constant) and isinstance(n.value.value, str):
+            consts[n.targets[0].id] = n.value
+    ok = {k: v for k, v in consts.items() if counts.get(k) == 1 and k not in params}
+
+    class R(ast.NodeTransformer):
+        def visit_Name(self, node):
+            if isinstance(node.ctx, ast.Load) and node.id in ok:
+                return ast.copy_location(ast.Constant(ok[node.id].value), node)
+            return node
+    return ast.fix_missing_locations(R().visit(fn))
